@@ -338,6 +338,7 @@ func runC09(c *Ctx) {
 			}
 		}
 	}
+	runDeviceChains(c)
 	// TTL option range on all six sockets
 	for _, s := range hopSites {
 		p := s.mk()
